@@ -633,6 +633,11 @@ func Reader(data any, selectors []any) (any, error) {
 							{
 								value := data[selector.GetKey()]
 								switch value := value.(type) {
+								case nil:
+									{
+										// a missing key stays NULL
+										copy[selector.GetKey()] = nil
+									}
 								case float64:
 									{
 										remainder := math.Mod(value, 1)
